@@ -282,7 +282,7 @@ func c20StrategyEmissions(p *Prog, l *Ledger) {
 							}
 						}
 					} else if ac, ok := arg.(*ssa.Call); ok && atomicOpOf(p.CallOf(ac).Name) == "Load" {
-						if fr, _, ok := fieldPointerLoad(ac.Call.Args[0]); ok && types.Identical(fr.Type, recvT) {
+						if fr, _, ok := atomicTarget(ac.Call.Args[0]); ok && types.Identical(fr.Type, recvT) {
 							okVal, readAt = true, ac
 							for _, d := range incs {
 								if !sameField(d.Field, fr) {
@@ -473,7 +473,7 @@ func c20ReadsEnforcedLimit(p *Prog, m *ssa.Function) string {
 		v := resolveLocalCell(strip(ret.Results[0], true))
 		v = strip(v, true)
 		if call, ok := v.(*ssa.Call); ok && atomicOpOf(p.CallOf(call).Name) == "Load" {
-			if fr, _, ok := fieldPointerLoad(call.Call.Args[0]); ok {
+			if fr, _, ok := atomicTarget(call.Call.Args[0]); ok {
 				for _, f := range lf {
 					if sameField(f, fr) {
 						why = ""
